@@ -50,6 +50,10 @@ type simPart struct {
 	pepoch   int16
 	pnext    int32
 	win      []simBatchMeta
+	// consumer side: the log as stored batches
+	batches  []simLogBatch
+	logStart int64
+	fetchN   int
 }
 
 // per produce-request plan (fault script)
@@ -85,6 +89,9 @@ type simCluster struct {
 	metaN     int
 	closed    bool
 	logAppend bool // LogAppendTime: responses carry a timestamp
+
+	fetchPlans     map[string]*simFetchPlan
+	abortedReverse bool
 }
 
 type simBroker struct {
@@ -98,7 +105,7 @@ type simBroker struct {
 
 func newSimCluster(t testing.TB, rec *vRec, nbrokers int, leaders []int32) *simCluster {
 	c := &simCluster{t: t, rec: rec, parts: map[int32]*simPart{}, pid: 7000, submitted: map[int]*simSubmitted{},
-		plans: map[int]*simPlan{}, holds: map[int]chan struct{}{}, reqSeen: map[int]chan struct{}{}}
+		plans: map[int]*simPlan{}, holds: map[int]chan struct{}{}, reqSeen: map[int]chan struct{}{}, fetchPlans: map[string]*simFetchPlan{}}
 	for p, l := range leaders {
 		c.parts[int32(p)] = &simPart{leader: l}
 	}
@@ -281,6 +288,10 @@ func (c *simCluster) handle(b *simBroker, req *request, wire int) (encoderWithHe
 		return &InitProducerIDResponse{ProducerID: c.pid, ProducerEpoch: 0}, ""
 	case *ProduceRequest:
 		return c.handleProduce(b, body, wire)
+	case *FetchRequest:
+		return c.handleFetch(b, body)
+	case *OffsetRequest:
+		return c.handleOffsets(b, body), ""
 	case *ApiVersionsRequest:
 		return nil, "drop"
 	}
